@@ -61,5 +61,18 @@ fn vf_lock_address_defaults() {
     checked += 1;
     let cfg: Result<crate::core::Config, _> = serde_json::from_str("{\"targets\":[],\"server\":{\"log\":{\"port\":6000},\"lock\":{}}}");
     match cfg { Ok(c) => if c.server.lock.port != d.port { bad += 1; println!("VF-FAIL configuration with `\"lock\": {{}}` :: lock port {} instead of the default {} (C14)", c.server.lock.port, d.port); }, Err(e) => { bad += 1; println!("VF-FAIL configuration with `\"lock\": {{}}` :: rejected: {} (C14)", e); } }
+    // a port number that does not fit 16 bits names no address: no two invocations may both get past acquisition with it (on the pinned
+    // tree every acquire fails; wrapping it to port 0 - an ephemeral port per invocation - would admit them all)
+    let rt = tokio::runtime::Builder::new_multi_thread().enable_all().build().unwrap();
+    for port in [65536usize, 131072, 65536 * 3] {
+        checked += 1;
+        let text = format!("{{\"port\":{},\"bind_timeout_ms\":300}}", port);
+        if let Ok(c) = serde_json::from_str::<LockServerConfig>(&text) {
+            let c2: LockServerConfig = serde_json::from_str(&text).unwrap();
+            let a = rt.block_on(LockServer::new(c).acquire());
+            let b = rt.block_on(LockServer::new(c2).acquire());
+            if a.is_ok() && b.is_ok() { bad += 1; println!("VF-FAIL two invocations configured with lock `{}` :: both are past lock acquisition at the same time (C14)", text); }
+        }
+    }
     println!("VF-SUMMARY test=lock_address_defaults checked={} nontrivial={} bad={}", checked, checked, bad);
 }
